@@ -30,8 +30,11 @@ def register(w):
             ensures=["markup_safe(result)"], props=["C13"],
             note="icon names come from the configured icon map")
     replace(P + "http.py::HTTPProtocol.getrenderstr", HTTP, params=dict(E, url="str"), modifies=[], raises={}, returns="str",
-            ensures=["markup_safe(result)"], props=["C13", "C03", "C04", "C20"],
-            note="for EVERY url string (also one taken from served content): the row's markup is literals + escaped data")
+            ensures=["markup_safe(result)",
+                     "implies(entry.name is not None, ('<TT>' + html.escape(entry.name) + '</TT>') in result)",
+                     "implies(entry.type != 'i' and entry.type != '7', ('<A HREF=\"' + html.escape(url) + '\">') in result)"],
+            props=["C13", "C03", "C04", "C20", "C06", "C05"],
+            note="for EVERY url string (also one taken from served content): the row's markup is literals + escaped data; C06: the row shows the entry's display name as it is (the empty name of a blank informational line included) and links every item")
     replace(P + "http.py::HTTPProtocol.renderobjinfo", HTTP, params=E,
             modifies=[], raises={}, returns="str",
             ensures=["markup_safe(result)"], props=["C13", "C03", "C04", "C20", "C05"])
@@ -51,7 +54,7 @@ def register(w):
             ensures=["markup_safe(result)", "self.accesskeyidx >= old(self.accesskeyidx)",
                      "implies(url.startswith('/') and entry.type != 'i' and entry.type != '7', ('href=\"' + html.escape(self.waptop + url) + '\">') in result)",
                      "implies(not url.startswith('/') and entry.type != 'i' and entry.type != '7', ('href=\"' + html.escape(url) + '\">') in result)"],
-            props=["C13", "C03", "C04", "C20", "C05"],
+            props=["C13", "C03", "C04", "C20", "C05", "C06"],
             note="C05: EVERY local link (path starting with '/') is advertised under the WAP prefix that canhandlerequest strips again, whatever the name looks like")
     replace(P + "wap.py::WAPProtocol.renderdirstart", WAP, params=E, modifies=["self.accesskeyidx", "self.postfieldidx"], raises={}, returns="str",
             ensures=["markup_safe(result)", "self.accesskeyidx == 0", "self.postfieldidx == 0"], props=["C13", "C03", "C04", "C20"])
